@@ -171,6 +171,11 @@ def _bits_hi(v):
 def _bitop(I, op, a: VInt, b: VInt):
     if a.c is not None and b.c is not None:
         return mkint({"&": a.c & b.c, "|": a.c | b.c, "^": a.c ^ b.c}[op])
+    if op == "|":
+        for x, m in ((a, b), (b, a)):
+            if x.c is None and x.b is None and x.lz and m.c is not None and 0 <= m.c < (1 << x.lz):
+                # low bits of x are zero: or-ing a small constant is adding it
+                return VInt(i=x.i + m.c, lo=(x.lo + m.c) if x.lo is not None else None, hi=(x.hi + m.c) if x.hi is not None else None)
     if op == "&":
         # x & (2^k - 1) on an unbounded integer is x mod 2^k
         for x, m in ((a, b), (b, a)):
@@ -214,6 +219,9 @@ def _shift(I, op, a: VInt, b: VInt):
         return VInt(i=z3.BV2Int(r, False), lo=a.lo >> k, hi=a.hi >> k)
     if not a.fits_bv():
         raise Unsupported("shift of an integer without 64-bit bounds")
+    if op == "<<" and a.b is None and a.i is not None and a.lo is not None and a.lo >= 0:
+        # Int-kind non-negative value: x << k = x * 2^k, kept in the integers
+        return VInt(i=a.i * (1 << k), lo=a.lo << k, hi=(a.hi << k) if a.hi is not None else None, lz=k)
     if op == "<<":
         lo, hi = a.lo << k, a.hi << k
         if not (-BIG <= lo and hi <= BIG):
